@@ -16,30 +16,32 @@ import (
 
 // OblResult is a solved obligation.
 type OblResult struct {
-	O      *govc.Oblig
-	R      smt.Result
-	Query  string
+	O     *govc.Oblig
+	R     smt.Result
+	Query string
 }
 
 // FuncOutcome is the result of verifying one function.
 type FuncOutcome struct {
-	Key     string
-	Reject  string
-	Notes   []string
-	Results []*OblResult
-	Dropped []string // Houdini candidates dropped
+	Key        string
+	Reject     string
+	Notes      []string
+	Results    []*OblResult
+	Dropped    []string // Houdini candidates dropped
 	seedFailed bool
-	Kept    []string
-	Iter    int
+	Kept       []string
+	Iter       int
 }
 
 // Runner solves obligations in parallel.
 type Runner struct {
-	Solver  *smt.Solver
-	Workers int
-	Skip    func(o *govc.Oblig) bool // obligations not attempted (recorded as undecided / not selected)
-	candBudget time.Duration
-	Cheap      func(o *govc.Oblig) bool // obligations solved with a tenth of the budget (recorded known findings in the quick tier)
+	Solver       *smt.Solver
+	Workers      int
+	Skip         func(o *govc.Oblig) bool // obligations not attempted (recorded as undecided / not selected)
+	candBudget   time.Duration
+	CanaryRLimit int64 // resource limit of vacuity canaries (ten times larger when a baseline is recorded, so that
+	// every return a later run can prove dead was already recorded as dead)
+	Cheap func(o *govc.Oblig) bool // obligations solved with a tenth of the budget (recorded known findings in the quick tier)
 }
 
 func (r *Runner) solveAll(obs []*govc.Oblig) []*OblResult {
@@ -63,7 +65,11 @@ func (r *Runner) solveAll(obs []*govc.Oblig) []*OblResult {
 				return
 			}
 			if o.Canary {
-				out[i] = &OblResult{O: o, R: r.Solver.CheckQuick(q, 2*time.Second), Query: q}
+				rl := r.CanaryRLimit
+				if rl == 0 {
+					rl = 3_000_000
+				}
+				out[i] = &OblResult{O: o, R: r.Solver.CheckQuickR(q, rl), Query: q}
 				return
 			}
 			if o.ForceFail {
